@@ -14,23 +14,25 @@ Record Rel (k : kstate) (s : sstate) (c : carried) : Prop := mkRel {
   r_wait : k_waiting k = false -> g_fib (c_globals c) <> Some (VFiber true);
   r_imp : forall m, s_imported s m = match mget m (c_mods c) with Some true => true | _ => false end;
   r_poison : forall m, mget m (c_mods c) = Some false -> k_poisoned k m = true;
+  r_conv : forall m, k_poisoned k m = true -> mget m (c_mods c) = Some false;
   r_unreg : r_missing (c_mods c) = None /\ r_syn (c_mods c) = None;
   r_fail : r_bad (c_mods c) <> Some true /\ r_nest (c_mods c) <> Some true;
   r_goodm : r_good (c_mods c) <> Some false
 }.
 
+Ltac rel_base :=
+  constructor; cbn;
+  first [ reflexivity | discriminate | split; discriminate | split; reflexivity
+        | (let m := fresh in intros m; destruct m; reflexivity)
+        | (let m := fresh in let H := fresh in intros m H; destruct m; discriminate H)
+        | (let H := fresh in intros H; discriminate H) ].
+
 Lemma rel_init : Rel k_init s_init init_carried.
-Proof.
-  constructor; cbn; auto; try (split; discriminate); try discriminate.
-  - intros m; destruct m; reflexivity.
-  - intros m H; destruct m; discriminate H.
-Qed.
+Proof. rel_base. Qed.
 
 Lemma rel_reset : forall c, Rel k_init s_init (m_reset c).
 Proof.
-  intros [he fibs cd mods ch rg gl]; unfold m_reset, m_reset_stack; destruct fibs; cbn;
-    (constructor; cbn; auto; try (split; discriminate); try discriminate;
-     [intros m; destruct m; reflexivity | intros m H; destruct m; discriminate H]).
+  intros [he fibs cd mods ch rg gl]; unfold m_reset, m_reset_stack; destruct fibs; cbn; rel_base.
 Qed.
 
 Definition step_goal (k : kstate) (s : sstate) (c : carried) (sn : snip) : Prop :=
@@ -40,11 +42,13 @@ Definition step_goal (k : kstate) (s : sstate) (c : carried) (sn : snip) : Prop 
 
 Ltac nf := lazy -[show_Z show_nat Z.add String.append name_error exc_msg circular_msg missing_msg gname_s fname_s cname_s
                  mod_alias mod_v range_hit range_full].
+Ltac nf_in H := lazy -[show_Z show_nat Z.add String.append name_error exc_msg circular_msg missing_msg gname_s fname_s cname_s
+                 mod_alias mod_v range_hit range_full] in H.
 Ltac dv x := destruct x as [[?|?|?|?|[]|?]|].
 
 (* the registry, the poison set and the waiting flag are unchanged; globals changed the same way on both sides *)
-Ltac fin_same Hw Hi Hp Hu Hf Hg :=
-  split; [constructor; [reflexivity | exact Hw | exact Hi | exact Hp | exact Hu | exact Hf | exact Hg]
+Ltac fin_same Hw Hi Hp Hc Hu Hf Hg :=
+  split; [constructor; [reflexivity | exact Hw | exact Hi | exact Hp | exact Hc | exact Hu | exact Hf | exact Hg]
          | split; [exact I | intros _; reflexivity]].
 
 Section Plain.
@@ -58,20 +62,21 @@ Let C0 := mkC he fibs cd mods ch rg gl.
 Hypothesis Hw : kw = false -> a7 <> Some (VFiber true).
 Hypothesis Hi : forall m, si m = match mget m mods with Some true => true | _ => false end.
 Hypothesis Hp : forall m, mget m mods = Some false -> kp m = true.
+Hypothesis Hc : forall m, kp m = true -> mget m mods = Some false.
 Hypothesis Hu : r_missing mods = None /\ r_syn mods = None.
 Hypothesis Hf : r_bad mods <> Some true /\ r_nest mods <> Some true.
 Hypothesis Hg : r_good mods <> Some false.
 
 Lemma refine_var : forall g z, step_goal K S0 C0 (SnVar g z).
-Proof. intros g z; unfold step_goal, K, S0, C0, gl; destruct g; nf; fin_same Hw Hi Hp Hu Hf Hg. Qed.
+Proof. intros g z; unfold step_goal, K, S0, C0, gl; destruct g; nf; fin_same Hw Hi Hp Hc Hu Hf Hg. Qed.
 
 Lemma refine_print : forall g, step_goal K S0 C0 (SnPrint g).
 Proof.
-  intros g; unfold step_goal, K, S0, C0, gl; destruct g; [dv a0 | dv a1]; nf; fin_same Hw Hi Hp Hu Hf Hg.
+  intros g; unfold step_goal, K, S0, C0, gl; destruct g; [dv a0 | dv a1]; nf; fin_same Hw Hi Hp Hc Hu Hf Hg.
 Qed.
 
 Ltac start := unfold step_goal, K, S0, C0, gl.
-Ltac fin := fin_same Hw Hi Hp Hu Hf Hg.
+Ltac fin := fin_same Hw Hi Hp Hc Hu Hf Hg.
 
 Lemma refine_fn : forall f g, step_goal K S0 C0 (SnFn f g).
 Proof. intros f g; start; destruct f; nf; fin. Qed.
@@ -129,10 +134,10 @@ Qed.
 Lemma refine_fiberwait : forall d, step_goal K S0 C0 (SnThrow WFiberWait d).
 Proof.
   intros d; start. destruct d as [[[] z]|]; nf;
-    (split; [constructor; [ f_equal; try reflexivity;
+    (split; [constructor; [ nf; f_equal; try reflexivity;
                               match goal with |- context [match ?a with _ => _ end] => is_var a; destruct a as [[| | | |[]|]|] end;
                               reflexivity
-                          | intros Hx; discriminate Hx | exact Hi | exact Hp | exact Hu | exact Hf | exact Hg]
+                          | intros Hx; discriminate Hx | exact Hi | exact Hp | exact Hc | exact Hu | exact Hf | exact Hg]
             | split; [exact I | intros _; reflexivity]]).
 Qed.
 
@@ -140,8 +145,193 @@ Lemma refine_usefiber : step_goal K S0 C0 SnUseFiber.
 Proof.
   start. destruct a7 as [[?|?|?|?|[]|?]|]; nf; try fin.
   (* fw was left called: only inside the named class *)
-  split; [constructor; [reflexivity | exact Hw | exact Hi | exact Hp | exact Hu | exact Hf | exact Hg]|].
+  split; [constructor; [reflexivity | exact Hw | exact Hi | exact Hp | exact Hc | exact Hu | exact Hf | exact Hg]|].
   split; [exact I|].
   destruct kw; [intros Hx; discriminate Hx|]. exfalso; apply Hw; reflexivity.
 Qed.
 End Plain.
+
+Section Imports.
+Variables (kp : modk -> bool) (kw : bool) (si : modk -> bool) (he : bool) (fibs : list fiber) (cd : bool)
+          (mg mb mn : option bool) (ch : nat) (rg : list nat).
+Variables a0 a1 a2 a3 a4 a5 a6 a7 a8 a9 a10 a11 a12 : option gval.
+Let gl := mkG a0 a1 a2 a3 a4 a5 a6 a7 a8 a9 a10 a11 a12.
+Let mods := mkR mg mb None None mn.
+Let K := mkK kp kw.
+Let S0 := mkS (gmap unmark gl) si.
+Let C0 := mkC he fibs cd mods ch rg gl.
+Hypothesis Hw : kw = false -> a7 <> Some (VFiber true).
+Hypothesis Hi : forall m, si m = match mget m mods with Some true => true | _ => false end.
+Hypothesis Hp : forall m, mget m mods = Some false -> kp m = true.
+Hypothesis Hc : forall m, kp m = true -> mget m mods = Some false.
+Hypothesis Hf : mb <> Some true /\ mn <> Some true.
+Hypothesis Hg : mg <> Some false.
+
+Ltac start := unfold step_goal, K, S0, C0, gl, mods.
+Ltac imp_tac := let m := fresh "m" in intros m; destruct m; nf;
+  first [ reflexivity | exact (Hi MGood) | exact (Hi MThrow) | exact (Hi MMissing) | exact (Hi MSyntax) | exact (Hi MNest) ].
+Ltac poison_tac := let m := fresh "m" in let H := fresh "H" in intros m; destruct m; nf; intros H;
+  first [ discriminate H | reflexivity | assumption | exact (Hp MGood H) | exact (Hp MThrow H) | exact (Hp MNest H) ].
+Ltac conv_tac := let m := fresh "m" in let H := fresh "H" in intros m; destruct m; nf; intros H;
+  first [ reflexivity | discriminate H | exact (Hc MGood H) | exact (Hc MThrow H) | exact (Hc MMissing H) | exact (Hc MSyntax H)
+        | exact (Hc MNest H) | discriminate (Hc MGood H) | discriminate (Hc MThrow H) | discriminate (Hc MNest H) ].
+Ltac fin_rel :=
+  constructor;
+  [ nf; reflexivity | exact Hw | imp_tac | poison_tac | conv_tac | split; reflexivity
+  | nf; split; first [ exact (proj1 Hf) | exact (proj2 Hf) | discriminate ]
+  | nf; first [ exact Hg | discriminate ] ].
+Ltac fin_eq := split; [fin_rel | split; [exact I | intros _; reflexivity]].
+Ltac fin_cls := split; [fin_rel | split; [exact I | let Hx := fresh in intros Hx; discriminate Hx]].
+
+Lemma refine_import_missing : step_goal K S0 C0 (SnImport MMissing).
+Proof.
+  start. pose proof (Hi MMissing) as E; nf_in E. nf. rewrite E. nf. fin_eq.
+Qed.
+
+Lemma refine_import_syntax : step_goal K S0 C0 (SnImport MSyntax).
+Proof.
+  start. pose proof (Hi MSyntax) as E; nf_in E. nf. rewrite E. nf. fin_eq.
+Qed.
+
+Lemma refine_import_good : step_goal K S0 C0 (SnImport MGood).
+Proof.
+  pose proof (Hi MGood) as E. revert E Hi Hp Hc Hg. unfold step_goal, K, S0, C0, gl, mods.
+  destruct mg as [[]|]; intros E Hi Hp Hc Hg; nf_in E.
+  - nf. rewrite E. nf. fin_eq.
+  - exfalso; apply Hg; reflexivity.
+  - nf. rewrite E. nf. fin_eq.
+Qed.
+
+Lemma refine_import_throw : step_goal K S0 C0 (SnImport MThrow).
+Proof.
+  pose proof (Hi MThrow) as E. pose proof (Hp MThrow) as P. pose proof (Hc MThrow) as Q. revert E P Q Hi Hp Hc Hf.
+  unfold step_goal, K, S0, C0, gl, mods.
+  destruct mb as [[]|]; intros E P Q Hi Hp Hc Hf; nf_in E; nf_in P; nf_in Q.
+  - exfalso; apply (proj1 Hf); reflexivity.
+  - (* registered by a failed import: poisoned *)
+    nf. rewrite (P eq_refl), E. nf. fin_cls.
+  - nf; rewrite E; destruct (kp MThrow) eqn:Ek; [discriminate (Q eq_refl)|]; nf; fin_eq.
+Qed.
+
+Lemma refine_import_nest : step_goal K S0 C0 (SnImport MNest).
+Proof.
+  pose proof (Hi MNest) as E. pose proof (Hp MNest) as P. pose proof (Hp MThrow) as P'.
+  pose proof (Hc MNest) as Q. pose proof (Hc MThrow) as Q'.
+  revert E P P' Q Q' Hi Hp Hc Hf. unfold step_goal, K, S0, C0, gl, mods.
+  destruct mn as [[]|]; intros E P P' Q Q' Hi Hp Hc Hf; nf_in E; nf_in P; nf_in Q.
+  - exfalso; apply (proj2 Hf); reflexivity.
+  - (* nest itself is poisoned *)
+    nf. rewrite (P eq_refl), E. nf. fin_cls.
+  - (* nest is loaded; its import of bad decides *)
+    revert E P P' Q Q' Hi Hp Hc Hf. destruct mb as [[]|]; intros E P P' Q Q' Hi Hp Hc Hf; nf_in P'; nf_in Q'.
+    + exfalso; apply (proj1 Hf); reflexivity.
+    + nf. rewrite (P' eq_refl), E. destruct (kp MNest) eqn:Ek1; [discriminate (Q eq_refl)|]. nf. fin_cls.
+    + nf. rewrite E. destruct (kp MNest) eqn:Ek1; [discriminate (Q eq_refl)|].
+      destruct (kp MThrow) eqn:Ek2; [discriminate (Q' eq_refl)|]. nf. fin_eq.
+Qed.
+End Imports.
+
+(* ---------- every snippet ---------- *)
+Theorem snippet_refines : forall k s c sn, Rel k s c -> step_goal k s c sn.
+Proof.
+  intros [kp kw] [sg si] [he fibs cd [mg mb mm ms mn] ch rg [a0 a1 a2 a3 a4 a5 a6 a7 a8 a9 a10 a11 a12]] sn
+         [Hgl Hw Hi Hp Hc [Hu1 Hu2] Hf Hg].
+  cbn in Hgl, Hw, Hi, Hp, Hc, Hu1, Hu2, Hf, Hg. subst sg mm ms.
+  destruct sn as [g z|g|f g|f|cl z|cl|pre|w d|  |  |  |  |k|  |  |m|m| ].
+  - apply refine_var; auto.
+  - apply refine_print; auto.
+  - apply refine_fn; auto.
+  - apply refine_call; auto.
+  - apply refine_class; auto.
+  - apply refine_use; auto.
+  - apply refine_syntax; auto.
+  - assert (D : w = WFiberWait \/ w <> WFiberWait) by (destruct w; (left; reflexivity) || (right; discriminate)).
+    destruct D as [-> | D]; [apply refine_fiberwait | apply refine_throw]; auto.
+  - apply refine_tryfin; auto.
+  - apply refine_trycatch; auto.
+  - apply refine_fiberok; auto.
+  - apply refine_captureok; auto.
+  - apply refine_range; auto.
+  - apply refine_useleak; auto.
+  - apply refine_usefiber; auto.
+  - destruct m.
+    + apply refine_import_good; auto.
+    + apply refine_import_throw; auto.
+    + apply refine_import_missing; auto.
+    + apply refine_import_syntax; auto.
+    + apply refine_import_nest; auto.
+  - apply refine_usemod; auto.
+  - (* RESET *)
+    unfold step_goal. split; [apply rel_reset | split; [exact I | intros _; reflexivity]].
+Qed.
+
+(* ---------- every history ---------- *)
+Fixpoint agree (ks : list (option known_class)) (ms : list (obs * carried)) (ss : list obs) : Prop :=
+  match ks, ms, ss with
+  | [], [], [] => True
+  | k :: ks', (o, _) :: ms', s :: ss' => (k = None -> o = s) /\ settled o /\ agree ks' ms' ss'
+  | _, _, _ => False
+  end.
+
+Lemma history_refines : forall h k s c, Rel k s c ->
+  agree (scan_history k h) (m_history c h) (s_history s h).
+Proof.
+  induction h as [|sn r IH]; intros k s c HR; cbn; [exact I|].
+  destruct (snippet_refines k s c sn HR) as [HR' [Hs He]].
+  destruct (scan_snippet k sn) as [k' cls]; destruct (spec_snippet s sn) as [s' so];
+    destruct (m_snippet c sn) as [c' mo]; cbn in *.
+  split; [exact He | split; [exact Hs | apply IH; exact HR']].
+Qed.
+
+(* T: at every snippet of every history that is not in a named class, the code prints what the Spec prints, ends
+   the way the Spec ends and asks the module loader for the same modules; and no snippet of any history panics or
+   takes a path the source does not have (settled) *)
+Theorem failed_snippet_only_definitions : forall h,
+  agree (known_classes h) (eval_mech h) (eval_spec h).
+Proof. intros h; apply history_refines; exact rel_init. Qed.
+
+Lemma agree_all : forall ks ms ss, agree ks ms ss ->
+  existsb (fun o => match o with Some _ => true | None => false end) ks = false ->
+  map fst ms = ss.
+Proof.
+  induction ks as [|k ks IH]; intros [|[o c] ms] [|s ss] H Hk; cbn in *; try contradiction; try reflexivity.
+  destruct H as [He [_ Hr]]. destruct k; [discriminate Hk|]. cbn in Hk.
+  rewrite (He eq_refl). f_equal. apply IH; assumption.
+Qed.
+
+Corollary outside_known_classes_mech_is_spec : forall h,
+  in_known_class h = false -> map fst (eval_mech h) = eval_spec h.
+Proof. intros h H; eapply agree_all; [apply failed_snippet_only_definitions | exact H]. Qed.
+
+Lemma agree_settled : forall ks ms ss, agree ks ms ss -> Forall (fun oc => settled (fst oc)) ms.
+Proof.
+  induction ks as [|k ks IH]; intros [|[o c] ms] [|s ss] H; cbn in *; try contradiction; constructor.
+  - apply H.
+  - eapply IH; apply H.
+Qed.
+
+(* T: so every history leaves a clean fiber after every snippet (no condition left) *)
+Theorem run_leaves_clean_always : forall h, Forall (fun oc => clean (snd oc)) (eval_mech h).
+Proof.
+  intros h; apply run_leaves_clean; eapply agree_settled; apply failed_snippet_only_definitions.
+Qed.
+
+(* the named classes are inhabited: the faithful model does NOT refine the Spec there *)
+Theorem failed_import_refuted :
+  exists h, in_known_class h = true /\ map fst (eval_mech h) <> eval_spec h.
+Proof. exists [SnImport MThrow; SnImport MThrow]; split; [reflexivity | vm_compute; discriminate]. Qed.
+
+Theorem waiting_fiber_refuted :
+  exists h, in_known_class h = true /\ map fst (eval_mech h) <> eval_spec h.
+Proof. exists [SnThrow WFiberWait None; SnUseFiber]; split; [reflexivity | vm_compute; discriminate]. Qed.
+
+(* hypotheses are satisfiable by a non-trivial history: a failure of each family followed by the same construct *)
+Example outside_example :
+  in_known_class [SnVar I0 5%Z; SnImport MGood; SnThrow WTryFinally (Some (I1, 2%Z)); SnTryFin; SnThrow WClassDef None;
+                  SnClass I0 7%Z; SnUse I0; SnImport MThrow; SnImport MGood; SnThrow WCaptureFiber None; SnUseLeak;
+                  SnReset; SnImport MThrow] = false.
+Proof. reflexivity. Qed.
+
+Print Assumptions failed_snippet_only_definitions.
+Print Assumptions run_leaves_clean_always.
+Print Assumptions failed_import_refuted.
